@@ -1,12 +1,12 @@
 #!/bin/bash
-# sweep_tier.sh <quick|thorough> [seed...] : run every check of the given tier on the unchanged tree (evidence and
+# sweep_tier.sh <quick|thorough> [seed...]  (VERIF_IDS="C01 C02" restricts the checks): run every check of the given tier on the unchanged tree (evidence and
 # replays go to a scratch directory, not to /verif/evidence) and print one line per check: id seed exit wall.
 TIER=${1:-quick}; shift
 SEEDS=${@:-1}
 ROOT=$(cd "$(dirname "$0")" && pwd)
 OUT=$(mktemp -d /tmp/sweep-$TIER-XXXXXX)
 for seed in $SEEDS; do
-  for id in $(python3 -c "import json;print(' '.join(json.loads(l)['id'] for l in open('$ROOT/properties.jsonl')))"); do
+  for id in ${VERIF_IDS:-$(python3 -c "import json;print(' '.join(json.loads(l)['id'] for l in open('$ROOT/properties.jsonl')))")}; do
     t0=$(date +%s)
     VERIF_SEED=$seed VERIF_OUT=$OUT "$ROOT/check" $id $TIER > $OUT/$id-$seed.log 2>&1; rc=$?
     t1=$(date +%s)
